@@ -400,6 +400,42 @@ def recipes(tn, E, only=None):
     add('cross', 'e, dr', f3, E.tt(n3, 1, 10), e=1e-4, nswp=3, dr_min=0, dr_max=2, info={})
     add('cross_act', 'sum', lambda X: X[:, 0] + X[:, 1], [E.tt(n3, 2, 11), E.tt(n3, 2, 12)], E.tt(n3, 2, 13), nswp=2, seed=1)
     add('cross_act', 'identity callback, dr=0', lambda X: X[:, 0], [E.tt(n3, 2, 11)], E.tt(n3, 2, 13), nswp=1, dr=0, seed=1)
+    # iterative drivers with a stop criterion ALREADY met at entry (nothing, or almost nothing, is computed: the result must
+    # still be independent of Y0 / A0 and of every other argument): no sweeps allowed, a huge tolerance, validation data the
+    # initial guess already fits (warm start with the exact tensor), an empty / tiny budget, a callback that stops at once
+    Yex = E.tt(n3, 2, 50)
+    yex = np.array([np.einsum('a,ab,b->', np.ones(1), np.linalg.multi_dot([G[:, i, :] for G, i in zip(Yex, ii)]), np.ones(1))
+                    for ii in Iall])
+
+    def stop_now(Y, info, opts):
+        return True
+    for tag, kw in (('nswp=0', dict(nswp=0)), ('e huge', dict(e=1e99)), ('e_vld huge', dict(e_vld=1e99)),
+                    ('warm start, e_vld met by Y0', dict(e_vld=1e-6)), ('warm start, nswp=1', dict(nswp=1)),
+                    ('cb stops at once', dict(cb=stop_now))):
+        add('als', f'entry stop: {tag}', E.arr(Iall), E.arr(yex), _clone(Yex), info={},
+            I_vld=E.arr(Iall[::2]), y_vld=E.arr(yex[::2]), **dict(dict(nswp=3), **kw))
+        add('als', f'entry stop, rank-adaptive: {tag}', E.arr(Iall), E.arr(yex), _clone(Yex), info={}, r=3,
+            I_vld=E.arr(Iall[::2]), y_vld=E.arr(yex[::2]), **dict(dict(nswp=3), **kw))
+        add('cross', f'entry stop: {tag}', lambda I: np.array([yex[np.ravel_multi_index(tuple(i), n3)] for i in I]), _clone(Yex),
+            info={}, cache={}, I_vld=E.arr(Iall[::2]), y_vld=E.arr(yex[::2]), **dict(dict(nswp=3), **kw))
+    for tag, kw in (('m=0', dict(m=0)), ('m=1', dict(m=1)), ('m=5', dict(m=5))):
+        add('cross', f'entry stop: {tag}', f3, E.tt(n3, 2, 10), info={}, cache={}, **kw)
+    Atr = E.tt([3, 3, 3], 2, 51)
+    ytr_ex = tn.func_get(Xtr, Atr, -1., 1.)
+    for tag, kw in (('nswp=0', dict(nswp=0)), ('e huge', dict(e=1e99)), ('e_vld huge', dict(e_vld=1e99)),
+                    ('warm start, e_vld met by A0', dict(e_vld=1e-6))):
+        add('als_func', f'entry stop: {tag}', E.arr(Xtr), E.arr(ytr_ex), _clone(Atr), info={},
+            X_vld=E.arr(Xtr[:9]), y_vld=E.arr(ytr_ex[:9]), **dict(dict(nswp=3), **kw))
+    for tag, kw in (('nswp=0', dict(nswp=0)), ('e huge', dict(e=1e99, nswp=2)), ('nswp=1 dr=0', dict(nswp=1, dr=0))):
+        add('cross_act', f'entry stop: {tag}', lambda X: X[:, 0] + X[:, 1], [E.tt(n3, 2, 11), E.tt(n3, 2, 12)], E.tt(n3, 2, 13),
+            seed=1, **kw)
+    add('optima_qtt', 'e huge', E.tt([4, 4, 4], 2, 20), k=2, e=1e99)
+    add('optima_qtt', 'r=1', E.tt([4, 4, 4], 2, 20), k=2, r=1)
+    add('optima_tt_maxvol', 'k=1', Y, 1)
+    add('optima_func_tt_beam', 'k=1', E.tt([3, 3, 3], 2, 21), 1)
+    add('truncate', 'e huge', E.tt(n3, 3, 24), 1e99)
+    add('truncate', 'r=1', E.tt(n3, 3, 24), 1e-2, 1)
+    add('add_many', 'entry stop: trunc_freq larger than the list', [Y, Y2], trunc_freq=10)
     add('accuracy_on_data', 'plain', Y, E.idx(Ib), E.vec([1., 2., 3., 4.]))
     add('accuracy_on_data', 'trunc', Y, E.idx(Ib), E.vec([1., 2., 3., 4.]), e_trunc=1e-3)
     add('accuracy_on_data', 'none', Y, None, None)
